@@ -106,8 +106,9 @@ pub fn gen_args(r: &mut Rng, op: i64, max_n: usize) -> (Vec<f64>, String) {
                  for q in pa.iter() { v.extend(q); } (v, name.to_string()) }
         405 => { let pitch = *r.pick(&[0.4, 0.5, 0.8, 1.0, 1.25, 1.5, 2.0, 3.0, 6.0]); let d_maj = pitch * r.uniform(4.0, 12.0);
                  let d_min = d_maj - 2.0 * 5.0 / 8.0 * (3.0f64.sqrt() / 2.0 * pitch);
-                 let li = *r.pick(&[0.0, 1.0, 90.0, 360.0, 45.0]); let lo = *r.pick(&[0.0, 1.0, 90.0, 360.0, 45.0]);
-                 (vec![d_min, d_maj, pitch, pitch * r.uniform(2.5, 8.0), *r.pick(&[4.0, 5.0, 16.0, 33.0, 8.0]), li, lo, if r.coin() { 1.0 } else { 0.0 }, r.below(2) as f64], "thread".into()) }
+                 let short = r.below(4) == 0;
+                 let li = if short { *r.pick(&[360.0, 330.0, 300.0]) } else { *r.pick(&[0.0, 1.0, 90.0, 360.0, 45.0]) }; let lo = if short { *r.pick(&[360.0, 330.0, 300.0, 90.0]) } else { *r.pick(&[0.0, 1.0, 90.0, 360.0, 45.0]) };
+                 (vec![d_min, d_maj, pitch, pitch * if short { r.uniform(2.05, 2.9) } else { r.uniform(2.5, 8.0) }, *r.pick(&[4.0, 5.0, 16.0, 33.0, 8.0]), li, lo, if r.coin() { 1.0 } else { 0.0 }, r.below(2) as f64], "thread".into()) }
         406 => { let s = r.distinct(3); let d: Vec<f64> = match r.below(6) { 0 => vec![0.0, 0.0, 7.0], 1 => vec![0.0, 0.0, -3.0], 2 => vec![5.0, 0.0, 0.0], 3 => vec![0.0, -2.0, 0.0], 4 => vec![1e-3, 0.0, 1e-3], _ => r.distinct(3) };
                  (vec![1.0, r.cad().abs() + 0.01, (4 + r.below(20)) as f64, s[0], s[1], s[2], s[0] + d[0], s[1] + d[1], s[2] + d[2]], "viewer-edge".into()) }
         407 => { let (p, name) = polygen::cw_profile(r, max_n); let t = r.distinct(3); let mut v = vec![t[0], t[1], t[2], r.cad().abs() + 0.01, p.len() as f64]; v.extend(flat(&p)); (v, name.to_string()) }
